@@ -90,6 +90,9 @@ type Ctl struct {
 	wake      chan struct{}
 	// IdleResets: the horizon bounds consecutive idle virtual time (reset by every decision) instead of the total
 	IdleResets bool
+	// Free: points never park (free-running pass under the race detector: the cooperative hand-offs of the controlled
+	// mode are happens-before edges that would hide every race)
+	Free bool
 	// StrictCost: every choice other than the default (first) entry costs one deviation, also when the goroutine
 	// that ran last has blocked. For pipelines whose activity moves from goroutine to goroutine, where "the
 	// running goroutine" is not a useful notion of the default continuation.
@@ -120,7 +123,7 @@ func (c *Ctl) Point(key, label string, free bool) {
 
 // Choose is a point with n data alternatives; the controller's pick is returned (0 = default).
 func (c *Ctl) Choose(key, label string, free bool, n int, altCost int) int {
-	if c == nil || c.disabled.Load() {
+	if c == nil || c.Free || c.disabled.Load() {
 		return 0
 	}
 	p := &parked{gid: goid(), key: key, label: label, free: free, alts: n, cost: altCost, ch: make(chan int, 1)}
@@ -404,6 +407,8 @@ type Explorer struct {
 	MaxSteps int
 	IdleResets bool
 	StrictCost bool
+	Free       bool // free-running repetitions instead of the DFS (race detector pass)
+	FreeRuns   int
 	Shard, NShard int
 	Stats    Stats
 	Found    []Found
@@ -433,7 +438,7 @@ var currentExec atomic.Value // string
 
 // RunOnce executes one schedule (prefix then defaults) in a fresh bubble.
 func (e *Explorer) RunOnce(sc *Scenario, prefix []int, expect [][]string) (res execResult) {
-	ctl := &Ctl{prefix: prefix, expect: expect, Quantum: e.Quantum, Horizon: e.Horizon, MaxSteps: e.MaxSteps, IdleResets: e.IdleResets, StrictCost: e.StrictCost}
+	ctl := &Ctl{prefix: prefix, expect: expect, Quantum: e.Quantum, Horizon: e.Horizon, MaxSteps: e.MaxSteps, IdleResets: e.IdleResets, StrictCost: e.StrictCost, Free: e.Free}
 	currentExec.Store(fmt.Sprintf("%s %v", sc.Name, prefix))
 	if e.OnExec != nil {
 		e.OnExec(sc, prefix)
@@ -610,6 +615,23 @@ func (e *Explorer) saveState(current string, stack []workItem) {
 
 // Explore runs the deviation-bounded DFS for one scenario (explicit stack, same order as the recursive formulation).
 func (e *Explorer) Explore(sc *Scenario) {
+	if e.Free {
+		// the same scenario body, goroutines scheduled by the Go runtime: the oracle still judges every run
+		n := e.FreeRuns
+		if n <= 0 {
+			n = 3
+		}
+		for i := 0; i < n; i++ {
+			if !e.Deadline.IsZero() && time.Now().After(e.Deadline) {
+				e.Stats.Exhaustive = false
+				return
+			}
+			e.RunOnce(sc, nil, nil) // (the race detector is the only judge of this pass: a free run cannot be replayed)
+			e.Stats.Executions++
+			e.Stats.PerScenario[sc.Name]++
+		}
+		return
+	}
 	e.loadResume()
 	if e.Suspended || e.done[sc.Name] {
 		return
